@@ -488,6 +488,19 @@ class SlotInterp:
                     st.vars[vid] = st.vars[rv]
             return
         if c == 'CXXOperatorCallExpr' and o.get('op') == '++' and o.get('args'):
+            # a post-increment that is the element argument of a splice (`splice(pos, src, it++)`) is interpreted with that splice
+            if len(o['args']) == 2:
+                pm = fn.parent_map()
+                q = pm.get(n)
+                hops = 0
+                while q is not None and hops < 6 and not (fn.is_call(q) and (fn.callee(q) or {}).get('name') == 'splice'):
+                    if fn.nodes[q]['cls'] in ('CompoundStmt', 'IfStmt', 'ForStmt', 'WhileStmt', 'DeclStmt', 'ReturnStmt'):
+                        q = None
+                        break
+                    q = pm.get(q)
+                    hops += 1
+                if q is not None and hops < 6:
+                    return
             p = path(fn, o['args'][0], resolve_refs=False)
             vid = root_var_id(p)
             if vid is not None and vid in st.vars and len(p) == 1:
@@ -544,6 +557,7 @@ class SlotInterp:
                             self.fold_tracked(st, L)
                     out = self.run(g, st, nb)
                     st.lists, st.iters, st.elems = out.lists, out.iters, out.elems
+                    st.counts, st.recycled = out.counts, out.recycled      # what the helper recycled / moved counts for the caller
                     st.vars = {v: e for v, e in st.vars.items() if e in st.elems}
             return
 
@@ -650,9 +664,37 @@ class SlotInterp:
                         self.cnt_take_one(st, src)
                     self.ob('O-take-front', fn, n, True, 'single element taken from the front of %s' % src, reported)
             else:
+                # `splice(pos, src, it++)`: the element the cursor stood on is moved, and the cursor steps to the next one
+                post_inc = None
+                io = fn.nodes[itn]
+                if io['cls'] in ('CXXOperatorCallExpr', 'UnaryOperator') and io.get('op') == '++' and \
+                        (io.get('postfix') or (io['cls'] == 'CXXOperatorCallExpr' and len(io.get('args', [])) == 2)):
+                    operand = io['args'][0] if io['cls'] == 'CXXOperatorCallExpr' else fn.kids(itn)[0]
+                    pv = path(fn, operand, resolve_refs=False)
+                    if len(pv) == 1 and root_var_id(pv) in st.vars:
+                        post_inc = root_var_id(pv)
+                if post_inc is not None:
+                    eid = st.vars[post_inc]
+                    e = st.elems.get(eid)
+                    if e is not None and e[0] is not None:
+                        self.ob('O-own', fn, n, e[1] == src, 'the spliced element belongs to %s (source given: %s)' % (e[1], src), reported)
+                        moved = e[0]
+                        L0 = e[1]
+                        self.cnt_take_one(st, L0)
+                        del st.elems[eid]
+                        for v in [v for v, x in st.vars.items() if x == eid]:
+                            del st.vars[v]
+                        if L0 in st.iters:
+                            state, cert, rest = self.take_first(st.iters[L0][1])
+                            st.iters[L0] = (st.iters[L0][0], rest)
+                        else:
+                            state, cert, rest = None, 'may', Z
+                        tag = 'cur:%s' % post_inc
+                        st.elems[tag] = [state, L0, tag, cert]
+                        st.vars[post_inc] = tag
                 p = path(fn, itn, resolve_refs=False)
                 vid = root_var_id(p)
-                if vid is not None and vid in st.vars:
+                if moved is None and vid is not None and vid in st.vars:
                     eid = st.vars[vid]
                     e = st.elems.get(eid)
                     if e is not None:
